@@ -1285,9 +1285,9 @@ result_type parse_url_impl(std::string_view user_input,
             }
             // Otherwise:
             else {
-              // Set url's path to an empty list.
+              // Set url's path to an empty list. An empty list path is not an
+              // opaque path: the flag inherited from the (file) base stays.
               url.clear_pathname();
-              url.has_opaque_path = true;
             }
 
             // Set state to path state and decrease pointer by 1.
